@@ -16,13 +16,15 @@ META = {
     "rule": ("xcube over 0-3 array dimensions (extents 1-5, occasionally one extra axis), N in {1,2,3,6,12,40} so that "
              "cells with 0, 1, 2 and many rows occur, facts with 1-3 columns and any missing pattern, statistic in "
              "{stddev, quantile, min, max, corrcoef, covariance} with the weight forms the property quantifies over; every "
-             "cell compared with the textbook statistic (values within 1e-9 of the data magnitude, missing cells exactly), "
+             "cell compared with the textbook statistic (values within 1e-9 of the data spread plus 1e-12 of its magnitude - facts "
+             "include large-offset/small-spread data -, missing cells exactly), "
              "NaN and (values, validity) formats compared. Non-trivial: a cell with >=2 valid rows whose statistic is "
              "non-zero, or a cell missing for a reason other than having no rows; distinct by content hash"),
     "require": {t: ["agg:stddev", "agg:quantile", "agg:min", "agg:max", "agg:corrcoef", "agg:covariance",
                     "cells:one_valid_row", "cells:two_valid_rows", "cells:many_rows", "cells:missing_by_value",
                     "class:weighted_stddev", "class:weighted_quantile", "class:weighted_covariance", "class:datetime",
-                    "class:cols", "class:ndims=0", "class:propagate", "class:ignore", "wq:rescale_checked"]
+                    "class:cols", "class:ndims=0", "class:propagate", "class:ignore", "wq:rescale_checked",
+                    "class:large_offset_small_spread"]
                 for t in ("quick", "thorough")},
     "assumptions": [
         "correlation entries with a zero-variance column or < 2 rows, and covariance entries of cells with < 2 (complete) "
@@ -146,8 +148,21 @@ def judge(ctx, case):
     v2 = oracles.conform(numpy.asarray(res2[0]), full)
     ok2 = oracles.conform(numpy.asarray(res2[1]), full)
     lib_missing = numpy.isnat(r) if is_dt else numpy.isnan(r.astype(float))
-    mag = 1.0 if is_dt else max(1.0, float(numpy.nanmax(numpy.abs(numpy.where(xv, numpy.nan_to_num(x.astype(float), posinf=0, neginf=0), 0)))) if x.size else 1.0)
-    tol = 1e-9 * (mag * mag if agg == "covariance" else mag)
+    if is_dt or not x.size or not xv.any():
+        mag = spread = 1.0
+    else:
+        xf = numpy.nan_to_num(x.astype(float), posinf=0, neginf=0)[xv]
+        mag = max(1.0, float(numpy.abs(xf).max()))
+        spread = max(1.0, float(xf.max() - xf.min()))
+    # two-pass formulas: the error scales with the spread of the data, plus a few ulps of its magnitude
+    if agg == "covariance":
+        tol = 1e-9 * spread * spread + 1e-11 * mag * spread
+    elif agg == "stddev":
+        tol = 1e-9 * spread + 1e-12 * mag
+    else:
+        tol = 1e-9 * mag
+    if f.get("offset"):
+        ctx.count("class:large_offset_small_spread")
     nontrivial = False
     # NaN format vs (values, validity) format
     if ok2 is None or ok2.dtype != bool or not numpy.array_equal(~ok2, lib_missing):
@@ -266,7 +281,7 @@ def judge(ctx, case):
                             return
                         if ev != 0:
                             nontrivial = True
-                        if abs(float(r[idx]) - ev) > (tol if agg == "covariance" else 1e-9):
+                        if abs(float(r[idx]) - ev) > (tol if agg == "covariance" else 1e-9 + 1e-11 * mag / spread):
                             ctx.violation("value:" + feat, "matrix entry %r (%d rows): library %r, textbook %r" % (idx, nuse, r[idx], ev), case)
                             return
     # weighted quantile: invariance under rescaling all weights by a power of two
